@@ -113,7 +113,13 @@ class Module(object):
         return found
 
 
+_SINGLETONS = (ast.expr_context, ast.operator, ast.unaryop, ast.cmpop, ast.boolop)
+
+
 def _link(node, parent, mod):
+    # Load() / Store() / Add() ... are shared singletons of the parser: they belong to no tree and must not point into one
+    if isinstance(node, _SINGLETONS):
+        return
     node._parent = parent
     node._mod = mod
     for ch in ast.iter_child_nodes(node):
